@@ -400,3 +400,34 @@ func canonAtom(v ssa.Value) ssa.Value {
 	r, _ := atomReg.LoadOrStore(k, v)
 	return r.(ssa.Value)
 }
+
+// cEmptyStr recognises "s is the empty string": s == "", len(s) == 0, len(s) < 1, !(len(s) > 0), …
+func cEmptyStr(sv VM) CondM {
+	a := cCmp(token.EQL, sv, vConstStr(""))
+	b := cCmp(token.EQL, vLen(sv), vConstInt(0))
+	return func(v ssa.Value) (bool, bool) {
+		if ok, pos := a(v); ok {
+			return ok, pos
+		}
+		return b(v)
+	}
+}
+
+// cHasPrefix recognises "s starts with pre": strings.HasPrefix(s, pre) or s[:len(pre)] == pre.
+func cHasPrefix(sv, pre VM) CondM {
+	call := cBool(vCall("strings.HasPrefix", sv, pre))
+	head := func(v ssa.Value) bool {
+		sub := subOf(v)
+		if !sv(sub.base) || sub.hi == nil || sub.lo.k != 0 || len(sub.lo.t) != 0 {
+			return false
+		}
+		return linSum(0, vLen(pre))(*sub.hi)
+	}
+	eq := cCmp(token.EQL, head, pre)
+	return func(v ssa.Value) (bool, bool) {
+		if ok, pos := call(v); ok {
+			return ok, pos
+		}
+		return eq(v)
+	}
+}
